@@ -16,7 +16,7 @@ func TestC19(t *testing.T) {
 	mon.Main(t, mon.Check{
 		ID:          "C19",
 		Level:       "exploration",
-		Rule:        "real codecs. (S) serialise-then-deserialise for every GBN packet type x all 256 values of every one-byte field x both flags x payload lengths {0,1,2,3,4,5,255,256,65535,1 MiB} and for MsgData with all 256 version bytes x the same payload lengths, into a fresh and into a reused target. (D) for every byte string b that deserialises, Deserialize(Serialize(Deserialize(b))) must equal Deserialize(b): all strings of <=2 bytes, all 3-byte strings (quick) and all 4-byte strings whose first byte is a packet type (thorough), plus PRNG strings up to 64 bytes; MsgData with length prefixes smaller/equal/greater than the real length. Case = one slice of the space; non-trivial = every slice (each holds thousands of distinct values); the evaluations counter counts individual round trips.",
+		Rule:        "real codecs. (S) serialise-then-deserialise for every GBN packet type x all 256 values of every one-byte field x both flags x payload lengths {0,1,2,3,4,5,255,256,65535,1 MiB} and for MsgData with all 256 version bytes x the same payload lengths, into a fresh and into a reused target. (D) for every byte string b that deserialises, Deserialize(Serialize(Deserialize(b))) must equal Deserialize(b): all strings of <=2 bytes, all 3-byte strings (quick) and all 4-byte strings whose first byte is a packet type (thorough), plus PRNG strings up to 64 bytes; MsgData with length prefixes smaller/equal/greater than the real length. Case = one slice of the space; non-trivial = every slice (each holds thousands of distinct values); the evaluations counter counts individual round trips. The byte slices returned by Serialize are kept and compared with a snapshot after all later Serialize calls of the slice (a sender keeps them for retransmission).",
 		Assumptions: []string{"equality is semantic: an empty payload equals a nil payload"},
 		Exhaustive:  true,
 		NCases: func(tier string) int {
